@@ -1,1 +1,66 @@
-import PyshaclModel
+/-
+  C04 — logical / shape-based components compose by conformance, not by leaked results.
+  All statements: every shapes graph, data graph, option vector, evaluation path and nesting depth.
+-/
+import PyshaclProofs.LogicalLemmas
+namespace Pyshacl.C04
+open Pyshacl
+
+/-- a node conforms to a referenced shape exactly when validating it against that shape yields no
+    results (nested evaluations, any option vector incl. waivers and abort_on_first) -/
+theorem conforms_iff_no_results (c : Ctx) (fuel : Nat) (s : Shape) (v : Term) (p : List PathEntry)
+    (conf : Bool) (rs : List Result) (h : validateShape c fuel s (some [v]) (some p) = .ok (conf, rs)) :
+    conf = true ↔ rs = [] := by
+  have := validateShape_verdict c fuel s (some [v]) (some p) conf rs h
+  simp [okSet] at this
+  rw [this]; cases rs <;> simp
+
+/-- every node conforms to a deactivated shape -/
+theorem deactivated_conforms (c : Ctx) (fuel : Nat) (s : Shape) (focus : Option (List Term))
+    (p : Option (List PathEntry)) (hd : s.deactivated = true) :
+    validateShape c fuel s focus p = .ok (true, []) := by
+  cases fuel <;> simp [validateShape, validateBody, hd]
+
+/-- sh:not, sh:and, sh:or, sh:xone: results from the members' conformance facts alone -/
+theorem logical_from_conformance (rec : Rec) (s : Shape) (k : CKind) (path : List PathEntry) (fv : FV)
+    (members : List Shape) (bad : List Bool → Bool)
+    (hok : ∀ m ∈ members, ∀ f vs, (f, vs) ∈ fv → ∀ v ∈ vs, ∃ c r, rec m v path = .ok (c, r)) :
+    ∃ conf, logicalOver rec s k path fv members bad = .ok (conf,
+      fv.flatMap fun (f, vs) => vs.flatMap fun v =>
+        if bad (members.map fun m => confOf rec path m v) then [mkResult s k f (some v)] else []) :=
+  logicalOver_spec rec s k path fv members bad hok
+
+/-- sh:node: one result per non-conforming value; consulted results only under sh:detail -/
+theorem node_from_conformance (rec : Rec) (s : Shape) (path : List PathEntry) (fv : FV) (ns : Shape)
+    (g : Term → Bool × List Result)
+    (hok : ∀ f vs, (f, vs) ∈ fv → ∀ v ∈ vs, rec ns v path = .ok (g v))
+    (hgood : ∀ v, (g v).1 = (g v).2.isEmpty) :
+    ∃ conf, nodeOver rec s path fv ns = .ok (conf,
+      fv.flatMap fun (f, vs) => vs.flatMap fun v =>
+        if (g v).1 then [] else [mkResult s .node f (some v) (details := (g v).2)]) :=
+  nodeOver_spec rec s path fv ns g hok hgood
+/-- sh:property contributes the nested property shape's own results -/
+theorem property_forwards (rec : Rec) (path : List PathEntry) (fv : FV) (ps : Shape)
+    (g : Term → Bool × List Result)
+    (hok : ∀ f vs, (f, vs) ∈ fv → ∀ v ∈ vs, rec ps v path = .ok (g v)) :
+    ∃ conf, propertyOver rec path fv ps = .ok (conf, fv.flatMap fun (_, vs) => vs.flatMap fun v => (g v).2) :=
+  propertyOver_spec rec path fv ps g hok
+
+/-- each result carries the severity and declared messages of the shape that owns the constraint -/
+theorem result_owner (s : Shape) (k : CKind) (f : Term) (v p comp : Option Term) (d : List Result) :
+    (mkResult s k f v p comp d).shape = s.node ∧ (mkResult s k f v p comp d).severity = s.severity ∧
+    (match mkResult s k f v p comp d with | .mk _ _ _ _ _ _ m _ => m = s.messages) := by
+  simp [mkResult, Result.shape, Result.severity]
+
+/-! non-vacuity: sh:or of two failing members reports one OrConstraintComponent result and nothing of the members -/
+def exN (s : String) : Term := .iri ("http://ex.test/" ++ s)
+def sgOr : Graph :=
+  [⟨exN "S", rdfType, shNodeShape⟩, ⟨exN "S", shTargetNode, exN "a"⟩, ⟨exN "S", shOr, .bnode "l1"⟩,
+   ⟨.bnode "l1", rdfFirst, exN "A"⟩, ⟨.bnode "l1", rdfRest, .bnode "l2"⟩,
+   ⟨.bnode "l2", rdfFirst, exN "B"⟩, ⟨.bnode "l2", rdfRest, rdfNil⟩,
+   ⟨exN "A", rdfType, shNodeShape⟩, ⟨exN "A", sh "class", exN "C"⟩,
+   ⟨exN "B", rdfType, shNodeShape⟩, ⟨exN "B", sh "nodeKind", sh "Literal"⟩]
+example : (runValidate {} sgOr [] (fun _ _ _ => none) [] []).toOption.map
+    (fun p => (p.1, p.2.map (·.component))) = some (false, [sh "OrConstraintComponent"]) := by decide
+
+end Pyshacl.C04
